@@ -82,7 +82,7 @@ Definition skip_req_checks (f : hflags) : bool := hf_response f || hf_trailer f.
 Definition check_upper (n : bytes) : bool := existsb is_upper n.                       (* true = reject *)
 Definition check_ws (n v : bytes) : vres :=
   match n with
-  | [] => VIndexError                                                                 (* header[0][0] on an empty name *)
+  | [] => VProtocolError                                                              (* an empty name is refused *)
   | c :: _ =>
       if is_ws c || is_ws (last n 0) then VProtocolError
       else match v with
